@@ -1804,17 +1804,17 @@ func c04Gen(r *Run) *c04Params {
 	lts := []uint32{p.Expiry - 1, p.Expiry, p.Expiry + 1}
 	p.LockTime = lts[r.Rng.Intn(3)]
 	switch x := r.Rng.Intn(100); {
-	case x < 40:
+	case x < 36:
 		p.Path = "direct"
-	case x < 60:
+	case x < 52:
 		p.Path = "close"
-	case x < 70:
+	case x < 60:
 		p.Path = "renew"
-	case x < 76:
+	case x < 66:
 		p.Path = "withdraw"
-	case x < 82:
+	case x < 72:
 		p.Path = "deposit"
-	case x < 90:
+	case x < 80:
 		p.Path = "mgrbatch"
 	default:
 		p.Path = "batch"
